@@ -331,6 +331,7 @@ def _setup(b, case):
     b.between(d, 0, 4294967295)
     return {'self': light, 'matrix': matrix, 'duration': d, '_colors': colors}
 c.setup(_setup)
+c.crosscheck = False        # the recording device of this contract is not one of the harness's native device stubs
 c.ensures('one-message-for-the-whole-matrix', "len(ghost('sent')) == 1 and ghost('sent')[0][0] is SetTileState64")
 c.ensures('transmitted-exactly-once', "ghost('sent')[0][2] == 1")      # num_repeats: how often lifxlan puts the packet on the wire
 c.ensures('the-cells-as-given', "ghost('sent')[0][1]['colors'] is _colors and ghost('sent')[0][1]['duration'] == duration")
@@ -353,6 +354,7 @@ def _setup(b, case):
     light = lib.lifx_light(b, 'matrix', impl, 'M', _height=2, _width=3)
     return {'self': light, '_cells': PyList(list(cells))}
 c.setup(_setup)
+c.crosscheck = False        # (as above)
 c.bounded('a 2 x 3 light')
 c.ensures('one-request-for-the-whole-tile', "len(ghost('asked')) == 1 and ghost('asked')[0][0] is GetTileState64 and ghost('asked')[0][1] is StateTileState64 "
           "and ghost('asked')[0][2]['width'] == 3 and ghost('asked')[0][2]['height'] == 2 and ghost('asked')[0][2]['x'] == 0 and ghost('asked')[0][2]['y'] == 0 "
@@ -375,6 +377,7 @@ def _setup(b, case):
     light = lib.lifx_light(b, 'matrix', impl, 'M', _height=None, _width=None)
     return {'self': light, '_w': tiles[idx].d['width'], '_h': tiles[idx].d['height']}
 c.setup(_setup)
+c.crosscheck = False        # the answering device of this contract is not one of the harness's native device stubs
 c.cases([{'start': 0}, {'start': 1}, {'start': 2}])
 c.bounded('a chain of three tiles')
 c.ensures('asks-for-the-device-chain-once', "len(ghost('asked')) == 1 and ghost('asked')[0][0] is GetDeviceChain and ghost('asked')[0][1] is StateDeviceChain")
